@@ -325,12 +325,12 @@ def _nona(df, value = np.nan, edge = None):
     while len(mask.shape) > 1:
         mask = mask.min(axis = 1).astype(bool)
     res = df[~mask]
-    if edge is None or len(res) == 0 or not is_pd(df):
+    if edge is None or len(res) == 0:
         return res
     elif edge == 1: ## cut only latest values
-        return df_slice(df, ub = res.index[-1], openclose = '[]')
+        return df_slice(df, ub = res.index[-1], openclose = '[]') if is_pd(df) else df[:np.where(~mask)[0][-1]+1]
     elif edge == -1: ## cut only historic values
-        return df_slice(df, lb = res.index[0], openclose = '[]')
+        return df_slice(df, lb = res.index[0], openclose = '[]') if is_pd(df) else df[np.where(~mask)[0][0]:]
     
 
 def nona(a, value = np.nan, edge = None):
